@@ -135,7 +135,7 @@ func (g *gen) join(realm int, allFeatures bool) int {
 	if g.chance(0.6) {
 		hello.D = append(hello.D, KV{"dept", Str(g.pick(authroles))})
 	}
-	op := Op{Kind: "join", Realm: realm, Sess: s, Local: local, Hello: hello}
+	op := Op{Kind: "join", Realm: realm, Sess: s, Local: local, Hello: hello, AuthLocal: local && g.sc.Realms[realm].LocalAuth}
 	if g.chance(0.25) {
 		// transport details as a websocket / rawsocket server would supply them
 		td := Dict(KV{"peer", Str("10.0.0.7:4242")})
@@ -977,7 +977,8 @@ func (g *gen) tplDiscloseMixed() {
 		f := map[string]bool{"publisher_identification": i%2 == 0}
 		roles := Dict(KV{"subscriber", feat(f)}, KV{"publisher", feat(map[string]bool{})}, KV{"callee", feat(map[string]bool{})}, KV{"caller", feat(map[string]bool{})})
 		g.feats[s] = map[string]bool{}
-		g.sc.Ops = append(g.sc.Ops, Op{Kind: "join", Realm: realm, Sess: s, Local: i == 2 && g.chance(0.5), Hello: Dict(KV{"roles", roles})})
+		loc := i == 2 && g.chance(0.5)
+		g.sc.Ops = append(g.sc.Ops, Op{Kind: "join", Realm: realm, Sess: s, Local: loc, AuthLocal: loc && g.sc.Realms[realm].LocalAuth, Hello: Dict(KV{"roles", roles})})
 		g.alive = append(g.alive, s)
 		g.realm[s] = realm
 		subs = append(subs, s)
@@ -1158,6 +1159,15 @@ func Generate(profile string, seed uint64, idx int, maxOps, maxSess int) *Scenar
 			}
 			cfg.Rules = append(cfg.Rules, rule)
 		}
+	}
+	if g.chance(0.15) {
+		// in-process sessions authenticate like remote ones (and are then
+		// authorized like them, too)
+		cfg.LocalAuth = true
+		if len(cfg.Rules) > 0 {
+			cfg.LocalAuthz = true
+		}
+		g.tag("require-local-auth")
 	}
 	for i := 0; i < realms; i++ {
 		g.sc.Realms = append(g.sc.Realms, cfg)
